@@ -384,17 +384,21 @@ func (l *Linter) LintFiles(filepaths []string, project *Project) ([]*Error, erro
 		})
 	}
 
-	if err := eg.Wait(); err != nil {
-		return nil, err
-	}
+	err := eg.Wait()
 
 	// Ensure that all processes finish. `proc.wait()` must be called after `eg.Wait()`.
 	// Calling `WaitGroup.Add` after `WaitGroup.Wait` can cause a race condition (specifically when
 	// increasing the group count from 0 to 1 and calling `Wait` and at the same time).
 	// `WaitGroup.Add` is called in `proc.run()` and `WaitGroup.Wait` is called in `proc.wait()`.
 	// After traversing all workflows, `proc.run()` is no longer called so `proc.wait()` can be
-	// called safely.
+	// called safely. This must be done even if some workflow caused a fatal error. Otherwise
+	// external command processes which were started for other workflows are still running when
+	// this method returns (LintFile and Lint also wait for them before returning an error).
 	proc.wait()
+
+	if err != nil {
+		return nil, err
+	}
 
 	total := 0
 	for i := range ws {
